@@ -2,7 +2,8 @@
 // API-observable state after every op (same format as lean/Driver/C07.lean).
 //
 // operator new[] / delete[] are interposed: every block the Buffer code allocates is recorded
-// (address, size), requests above kAllocLimit and requests of an op prefixed `F` throw
+// (address, size), requests above kAllocLimit and requests of an op prefixed `F` (all of them) or
+// `F<k>` (exactly the k-th request made inside the op) throw
 // std::bad_alloc (no memory is touched), and after every op each buffer's readable and writable
 // windows are checked to lie inside the block it currently owns, blocks of different buffers being
 // different (`in=1`).
@@ -19,7 +20,8 @@ static const size_t kAllocLimit = 16777216;     // = allocLimit of the Lean driv
 struct Block { uint8_t *p; size_t n; };
 static Block g_blocks[64];
 static bool g_armed = false;    // inside a call into the code under test
-static bool g_fault = false;    // every armed request fails
+static long g_fault = 0;        // -1: every armed request fails; k > 0: the k-th armed request of this attempt fails
+static uint64_t g_req = 0;      // armed requests of this attempt
 static uint64_t g_news = 0, g_dels = 0;
 
 static size_t liveBlocks() { size_t k = 0; for (auto &b : g_blocks) if (b.p) ++k; return k; }
@@ -30,8 +32,8 @@ static const Block *blockOf(const uint8_t *p) {
 
 void *operator new[](size_t n) {
     if (!g_armed) { void *p = malloc(n ? n : 1); if (!p) throw std::bad_alloc(); return p; }
-    ++g_news;
-    if (g_fault || n > kAllocLimit) throw std::bad_alloc();
+    ++g_news; ++g_req;
+    if (g_fault < 0 || (g_fault > 0 && g_req == (uint64_t)g_fault) || n > kAllocLimit) throw std::bad_alloc();
     uint8_t *p = (uint8_t*)malloc(n ? n : 1);     // ASan block of exactly n bytes: redzones on both sides
     if (!p) throw std::bad_alloc();
     memset(p, 0xA5, n);                            // never hand out zeroes: a missing copy shows
@@ -57,13 +59,25 @@ static void reinit() {
     g_armed = false;
 }
 
-static std::string show() {
+static std::string show(bool quiet = false) {
     std::string s;
     for (size_t i = 0; i < kSlots; ++i) {
         if (i) s += "|";
-        s += vh::hex(g[i]->readableBegin(), g[i]->readableSize()) + ":" + std::to_string(g[i]->readableSize());
+        s += (quiet ? std::string("~") : vh::hex(g[i]->readableBegin(), g[i]->readableSize())) + ":" + std::to_string(g[i]->readableSize());
     }
     return s;
+}
+
+// FNV-1a (64 bit) = Tbox.C07.fnv
+static std::string fnvhex(const uint8_t *p, size_t n) {
+    uint64_t h = 14695981039346656037ull;
+    for (size_t k = 0; k < n; ++k) h = (h ^ p[k]) * 1099511628211ull;
+    char buf[17]; snprintf(buf, sizeof buf, "%016llx", (unsigned long long)h);
+    return buf;
+}
+// fetched bytes: hex up to 64 bytes, digest beyond
+static std::string outhex(const uint8_t *p, size_t n) {
+    return n <= 64 ? vh::hex(p, n) : "~" + fnvhex(p, n) + ":" + std::to_string(n);
 }
 
 // every window inside the owner's current block; no block shared by two buffers
@@ -105,6 +119,34 @@ static bool slot(const std::string &w, size_t &i) {
     uint64_t v; if (!num(w, v) || v >= kSlots) return false; i = v; return true;
 }
 
+// a size: literal, or `@rs` / `@ws` (readable / writable size of the reference buffer, taken before the
+// op) with an optional +K / -K (K < 2^32; `-` saturates at 0)
+static bool g_have_ref = false; static uint64_t g_rs = 0, g_ws = 0;
+static bool snum(const std::string &s, uint64_t &v) {
+    if (s.empty() || s[0] != '@') return num(s, v);
+    if (!g_have_ref || s.size() < 3) return false;
+    uint64_t base;
+    if (s.compare(1, 2, "rs") == 0) base = g_rs; else if (s.compare(1, 2, "ws") == 0) base = g_ws; else return false;
+    if (s.size() == 3) { v = base; return true; }
+    uint64_t k;
+    if (!num(s.substr(4), k) || k >= 4294967296ull) return false;
+    if (s[3] == '+') { if (base > UINT64_MAX - k) return false; v = base + k; return true; }
+    if (s[3] == '-') { v = base > k ? base - k : 0; return true; }
+    return false;
+}
+// a payload: hex, or %<n>:<seed> = Tbox.C07.pattern seed n
+static const uint64_t kPatLimit = 16777216;
+static bool payload(const std::string &s, std::vector<uint8_t> &d) {
+    if (s.empty() || s[0] != '%') return vh::unhex(s, d);
+    size_t c = s.find(':');
+    if (c == std::string::npos || s.find(':', c + 1) != std::string::npos) return false;
+    uint64_t n, seed;
+    if (!snum(s.substr(1, c - 1), n) || !num(s.substr(c + 1), seed) || n > kPatLimit || seed >= 4294967296ull) return false;
+    d.resize(n);
+    for (uint64_t k = 0; k < n; ++k) d[k] = (uint8_t)(seed * 131 + k * 7 + k / 256);
+    return true;
+}
+
 // a heap block holding `n` bytes at a chosen placement: pl 0..7 = start misaligned by pl, the last
 // byte directly in front of the redzone; pl 8..15 = first byte directly behind the redzone, pl-8 spare
 // bytes behind the data
@@ -121,43 +163,66 @@ struct Placed {
 int main() {
     std::string line;
     reinit();
-    bool tainted = false;
+    bool tainted = false, quiet = false;
     while (std::getline(std::cin, line)) {
         auto w = vh::words(line);
         if (w.empty()) continue;
-        if (w[0] == "case") { reinit(); tainted = false; std::cout << line << "\n"; continue; }
+        if (w[0] == "case") { reinit(); tainted = false; quiet = false; std::cout << line << "\n"; continue; }
         if (w.size() == 1 && w[0] == "teardown") {
             destroyAll();
             std::cout << "P live=" << liveBlocks() << "\n";
             reinit();
             continue;
         }
-        bool fault = false;
-        if (w[0] == "F") { fault = true; w.erase(w.begin()); if (w.empty()) { std::cout << "bad-op\n"; continue; } }
+        if (w.size() == 1 && w[0] == "fast") { std::cout << "P fast\n"; continue; }     // the model side switches representation
+        if (w.size() == 1 && w[0] == "quiet") { quiet = true; std::cout << "P quiet\n"; continue; }
+        if (w.size() == 2 && w[0] == "dig") {
+            size_t k;
+            if (!slot(w[1], k)) { std::cout << "bad-op\n"; continue; }
+            std::cout << (tainted ? "M " : "P ") << "dig=" << fnvhex(g[k]->readableBegin(), g[k]->readableSize())
+                      << " len=" << g[k]->readableSize() << "\n";
+            continue;
+        }
+        long fault = 0;
+        if (w[0] == "F") fault = -1;
+        else if (w[0].size() > 1 && w[0][0] == 'F') {
+            uint64_t k;
+            if (num(w[0].substr(1), k) && k >= 1 && k <= 9) fault = (long)k;
+        }
+        if (fault != 0) { w.erase(w.begin()); if (w.empty()) { std::cout << "bad-op\n"; continue; } }
         size_t i = 0, j = 0; uint64_t n = 0, off = 0, pl = 0; std::vector<uint8_t> d;
         std::string extra; uint64_t ret = 0; std::string out = "-";
         const std::string &op = w[0];
         bool ok = true;
         const char *how = "ok";
         g_news = g_dels = 0;
+        // the buffer `@rs` / `@ws` refer to (the SOURCE buffer for appo), sizes taken before the op
+        {
+            size_t ref;
+            g_have_ref = (op == "appo") ? (w.size() > 2 && slot(w[2], ref)) : (w.size() > 1 && slot(w[1], ref));
+            if (g_have_ref) { g_rs = g[ref]->readableSize(); g_ws = g[ref]->writableSize(); }
+        }
+        bool uses_ws = false, uses_at = false;
+        for (auto &x : w) { if (x.find("@ws") != std::string::npos) uses_ws = true; if (x.find('@') != std::string::npos) uses_at = true; }
+        (void)uses_at;
         // One attempt at the operation.  The calls into the code under test run armed; std::bad_alloc is
         // the reported failure.
-        auto attempt = [&](bool with_fault) {
-          g_fault = with_fault; how = "ok"; ret = 0; out = "-"; extra.clear();
+        auto attempt = [&](long with_fault) {
+          g_fault = with_fault; g_req = 0; how = "ok"; ret = 0; out = "-"; extra.clear();
           try {
-            if (op == "ctor" && w.size() == 3 && slot(w[1], i) && num(w[2], n)) {
+            if (op == "ctor" && w.size() == 3 && slot(w[1], i) && snum(w[2], n)) {
                 g_armed = true; g[i].reset(new Buffer(n));
             } else if (op == "ctord" && w.size() == 2 && slot(w[1], i)) {
                 g_armed = true; g[i].reset(new Buffer());
-            } else if ((op == "app" && w.size() == 3 && slot(w[1], i) && vh::unhex(w[2], d)) ||
-                       (op == "appa" && w.size() == 4 && slot(w[1], i) && num(w[2], pl) && pl < 16 && vh::unhex(w[3], d))) {
+            } else if ((op == "app" && w.size() == 3 && slot(w[1], i) && payload(w[2], d)) ||
+                       (op == "appa" && w.size() == 4 && slot(w[1], i) && num(w[2], pl) && pl < 16 && payload(w[3], d))) {
                 Placed src(op == "app" ? 0 : (unsigned)pl, d.size());
                 if (!d.empty()) memcpy(src.p, d.data(), d.size());
                 g_armed = true;
                 ret = g[i]->append(src.p, d.size());
                 g_armed = false;
                 if (ret != d.size()) how = "refused";
-            } else if (op == "apps" && w.size() == 4 && slot(w[1], i) && num(w[2], off) && num(w[3], n)) {
+            } else if (op == "apps" && w.size() == 4 && slot(w[1], i) && snum(w[2], off) && snum(w[3], n)) {
                 // append from the buffer's own readable bytes; the room is reserved BEFORE the source
                 // pointer is taken, so the append itself neither moves nor reallocates
                 // (that an append into reserved room does not move anything is a property of the capacity policy:
@@ -171,7 +236,18 @@ int main() {
                         if (ret != n) how = "refused";
                     } else how = "refused";
                 }
-            } else if (op == "res" && w.size() == 3 && slot(w[1], i) && num(w[2], n)) {
+            } else if (op == "appo" && w.size() == 5 && slot(w[1], i) && slot(w[2], j) && i != j && snum(w[3], off) && snum(w[4], n)) {
+                // the source lies inside the block of ANOTHER buffer: nothing the append does to g[i] may touch it
+                size_t rs = g[j]->readableSize();
+                if (off <= rs && n <= rs - off) {
+                    std::string src_before = vh::hex(g[j]->readableBegin(), rs);
+                    g_armed = true;
+                    ret = g[i]->append(g[j]->readableBegin() + off, n);
+                    g_armed = false;
+                    if (ret != n) how = "refused";
+                    if (vh::hex(g[j]->readableBegin(), g[j]->readableSize()) != src_before) out = "source-changed";
+                }
+            } else if (op == "res" && w.size() == 3 && slot(w[1], i) && snum(w[2], n)) {
                 g_armed = true;
                 bool r = g[i]->ensureWritableSize(n);
                 g_armed = false;
@@ -182,20 +258,20 @@ int main() {
                     // the reserved bytes are really there (ASan sees a lie)
                     if (n > 0 && n <= (1u << 20) && g[i]->writableSize() >= n) memset(g[i]->writableBegin(), 0xEE, n);
                 }
-            } else if (op == "rwc" && w.size() == 4 && slot(w[1], i) && num(w[2], n) && vh::unhex(w[3], d) && d.size() <= n) {
+            } else if (op == "rwc" && w.size() == 4 && slot(w[1], i) && snum(w[2], n) && payload(w[3], d) && d.size() <= n) {
                 g_armed = true;
                 if (g[i]->ensureWritableSize(n)) {
                     if (!d.empty()) memcpy(g[i]->writableBegin(), d.data(), d.size());
                     g[i]->hasWritten(d.size());
                 } else how = "refused";
-            } else if (op == "over" && w.size() == 3 && slot(w[1], i) && num(w[2], n)) {
+            } else if (op == "over" && w.size() == 3 && slot(w[1], i) && snum(w[2], n)) {
                 size_t ws = g[i]->writableSize();
                 if (ws) memset(g[i]->writableBegin(), 0, ws);
                 g_armed = true;
                 g[i]->hasWritten(n > ws ? n : ws);      // over-commit: at least the whole writable region, up to SIZE_MAX
                 tainted = true;
-            } else if ((op == "fetch" && w.size() == 3 && slot(w[1], i) && num(w[2], n)) ||
-                       (op == "fetcha" && w.size() == 4 && slot(w[1], i) && num(w[2], pl) && pl < 16 && num(w[3], n))) {
+            } else if ((op == "fetch" && w.size() == 3 && slot(w[1], i) && snum(w[2], n)) ||
+                       (op == "fetcha" && w.size() == 4 && slot(w[1], i) && num(w[2], pl) && pl < 16 && snum(w[3], n))) {
                 // destination of exactly min(n, readable) bytes at the chosen placement: an overrun is visible to ASan
                 size_t rs = g[i]->readableSize();
                 size_t want = n < rs ? n : rs;
@@ -203,8 +279,20 @@ int main() {
                 g_armed = true;
                 ret = g[i]->fetch(dst.p, n);
                 g_armed = false;
-                out = vh::hex(dst.p, ret <= want ? ret : 0);
-            } else if (op == "con" && w.size() == 3 && slot(w[1], i) && num(w[2], n)) {
+                out = outhex(dst.p, ret <= want ? ret : 0);
+            } else if (op == "fetchw" && w.size() == 3 && slot(w[1], i) && snum(w[2], n)) {
+                // fetch into the buffer's OWN writable region: room for the bytes is reserved first, then
+                // writableBegin() is the destination (source and destination inside one block)
+                size_t rs = g[i]->readableSize();
+                size_t want = n < rs ? n : rs;
+                g_armed = true;
+                if (g[i]->ensureWritableSize(want)) {
+                    uint8_t *p = g[i]->writableBegin();
+                    ret = g[i]->fetch(p, n);
+                    g_armed = false;
+                    out = outhex(p, ret <= want ? ret : 0);
+                } else how = "refused";
+            } else if (op == "con" && w.size() == 3 && slot(w[1], i) && snum(w[2], n)) {
                 g_armed = true; g[i]->hasRead(n);
             } else if (op == "conall" && w.size() == 2 && slot(w[1], i)) {
                 g_armed = true; g[i]->hasReadAll();
@@ -222,31 +310,45 @@ int main() {
                 g_armed = true; g[i]->swap(*g[j]);
             } else if (op == "reset" && w.size() == 2 && slot(w[1], i)) {
                 g_armed = true; g[i]->reset();
+            } else if (op == "rt" && w.size() == 2 && slot(w[1], i)) {
+                // composite, two allocations: copy into a temporary, assign back
+                g_armed = true;
+                { Buffer c(*g[i]); *g[i] = c; }
+            } else if (op == "rtm" && w.size() == 3 && slot(w[1], i) && payload(w[2], d)) {
+                // composite, two allocations: copy into a temporary, append to it (an exact-fit copy must grow), move back
+                g_armed = true;
+                {
+                    Buffer c(*g[i]);
+                    ret = c.append(d.data(), d.size());
+                    if (ret != d.size()) how = "refused";
+                    *g[i] = std::move(c);
+                }
             } else ok = false;
           } catch (const std::bad_alloc &) {
-            how = "badalloc"; ret = 0;
+            how = "badalloc"; ret = 0; out = "-";
           }
-          g_armed = false; g_fault = false;
+          g_armed = false; g_fault = 0;
         };
         // `F op`: first an attempt during which every allocation fails.  Whether the op needs an allocation
         // depends on the capacity policy (M line); what the property demands is that a FAILED attempt leaves
         // everything as it was (`keep`), after which the op is executed again with a working allocator.
         const char *how1 = "ok"; bool keep = true;
-        if (fault) {
+        if (fault != 0) {
             std::string before = show();
-            attempt(true);
+            attempt(fault);
             how1 = how;
             if (ok && strcmp(how, "ok") != 0) {
                 keep = (show() == before) && windowsInside();
-                attempt(false);
+                attempt(0);
             }
         } else {
-            attempt(false);
+            attempt(0);
             how1 = how;
         }
         if (!ok) { std::cout << "bad-op\n"; continue; }
+        if (uses_ws && op != "res") tainted = true;      // a size derived from the capacity: the content depends on the policy
         bool failed = strcmp(how, "ok") != 0;
-        std::cout << (tainted ? "M " : "P ") << show() << " ret=" << ret << " out=" << out
+        std::cout << (tainted ? "M " : "P ") << show(quiet) << " ret=" << ret << " out=" << out
                   << " st=" << (failed ? "fail" : "ok") << " in=" << (windowsInside() ? 1 : 0) << " keep=" << (keep ? 1 : 0) << extra << "\n";
         std::cout << "M how=" << how1 << " news=" << g_news << " dels=" << g_dels
                   << " wsz=" << g[i]->writableSize() << " live=" << liveBlocks() << "\n";
